@@ -356,7 +356,7 @@ def plan(prop, tier, seed, budget):
         )
     elif prop == 'C10':
         d1 = ['%s:%d:1' % (w, b) for w in 'nw' for b in range(15)]
-        d2q = ['%s:%d:2' % (w, b) for w in 'nw' for b in range(7)]
+        d2q = ['%s:%d:2' % (w, b) for w in 'nw' for b in range(4)]
         d2 = ['%s:%d:2' % (w, b) for w in 'nw' for b in range(15)]
         d3 = ['%s:%d:3' % (w, b) for w in 'nw' for b in range(7)]
         P = dict(
